@@ -13,9 +13,9 @@
     the unscaled category for any other recipe.  The invariant in the property's wording ("the
     shared map never returns a page of another count; the unscalable page is single and ends up
     parented by the unscaled category") is [C15_map_closed_form]. *)
-From Coq Require Import List NArith Bool String.
+From Coq Require Import List NArith Bool String Sorted.
 From RG Require Import Base.Str Base.Dec Model.Url Model.Href Model.Fs Model.Site Spec.SiteSpec
-  Proofs.SiteHeap Proofs.SiteBuild Proofs.SiteErrors Proofs.SitePages.
+  Proofs.SiteHeap Proofs.SiteSort Proofs.SiteBuild Proofs.SiteErrors Proofs.SitePages Proofs.SiteNav.
 Import ListNotations.
 Open Scope string_scope.
 Open Scope list_scope.
@@ -136,8 +136,14 @@ Example C15_page_scale_ex :
   mk_factor 1 2 = (1, 2) /\ mk_factor 2 2 = (1, 1) /\ mk_factor 3 2 = (3, 2) /\ mk_factor 6 4 = (3, 2).
 Proof. vm_compute. repeat split. Qed.
 
-(** category lists are in (title, name) order: [cp_subs] / [cp_recipes] are the result of
-    [sort_by] (C17_sorted_is_sorted), as [pure_dir] shows. *)
+(** the sub-category list and the recipe list of every written page are in non-decreasing
+    code-point order of the titles shown (the implementation sorts by (title, name)) *)
+Theorem C15_lists_by_title : forall E fs input M files root t,
+  generate_static_site E fs input M = Ok files ->
+  realpath fs input = ROk root -> view_root fs root = Some t -> uniq_names t ->
+  forall f po, In (f, CPageOut po) files -> Sorted by_title (po_cats po) /\ Sorted by_title (po_recs po).
+Proof. exact site_lists_sorted. Qed.
+Print Assumptions C15_lists_by_title.
 
 (** ** A recipe stating more servings than M is reported as an error
 
